@@ -33,6 +33,7 @@ EXPLANATION = (
     "a balance verdict of what it writes or followed by a validator pass and a revert/demotion that is control-dependent on the "
     "fresh labels; (R4) compare_dicts returns 'Balance' only under key-set equality and all-values equality and is its only "
     "producer; (R5) element keys are injective (shared with C07-E1)."
+    ' (R6) the solved flag is reset for every row before the input check (shared with C04-G6).'
 )
 ASSUMPTIONS = [
     "RDKit's counts are the true composition (C07 behavioural part, not decided)",
